@@ -48,7 +48,7 @@ def make_case(tier, seed, index):
             s_ = spec["settings"]
             y0 = float(s_["start"] + rng.uniform(0.2, 0.8) * (s_["end"] - s_["start"]))
             scen = {"par": p["name"], "pop": spec["pops"][0], "t": [y0, y0 + 1.0], "y": [gen.sample_value(rng, p["format"], "mild"), gen.sample_value(rng, p["format"], "mild")]}
-        projects.append({"kind": "generated", "spec": spec, "progspec": ps, "scenario": scen})
+        projects.append({"kind": "generated", "spec": spec, "progspec": ps, "scenario": scen, "start_moved_alone": float(rng.choice([0.37, 0.5, 0.81])) if rng.random() < 0.35 else None})
     projects.append({"kind": "library", "name": LIB[int(rng.integers(0, len(LIB)))]})
     if rng.random() < 0.5:
         # a library / fixture model under perturbation (several population types, derivative parameters, junction fixtures)
@@ -130,6 +130,10 @@ def build(pdesc, built=None):
     if pdesc.get("progspec"):
         pset = gen.build_progset(pdesc["progspec"], P.framework, P.data)
         instr = gen.build_instructions(pdesc["progspec"])
+    if pdesc.get("start_moved_alone"):
+        # (last thing before the runs) the start year has been moved on its own to a year that is not a whole number of steps
+        # before the end: the stored end year is then not a grid point, and stays what the user set it to
+        P.settings.sim_start = float(P.settings.sim_start) + float(pdesc["start_moved_alone"]) * float(P.settings.sim_dt)
     return P, pset, instr
 
 
@@ -201,6 +205,7 @@ def run_case(case):
     for step, (i, cfg) in enumerate(case["ops"]):
         P, pset, instr = built[i]
         inputs = {"parset": parset_for(P, cfg), "progset": pset, "instructions": instr, "framework": P.framework, "data": P.data, "settings": P.settings}
+        settings_attrs0 = {k_: repr(v_) for k_, v_ in vars(P.settings).items()}  # (taken without reading any property: reading is not supposed to write)
         before = {k: digest.snapshot(v) for k, v in inputs.items()}
         rs0 = np.random.get_state()
         ms0 = dict(M.model_settings)
@@ -217,6 +222,13 @@ def run_case(case):
             _AUD["on"] = False
         R.count("runs")
         after = {k: digest.snapshot(v) for k, v in inputs.items()}
+        settings_attrs1 = {k_: repr(v_) for k_, v_ in vars(P.settings).items()}
+        R.count("input_snapshots_compared")
+        if settings_attrs1 != settings_attrs0:
+            ch_ = sorted(k_ for k_ in set(settings_attrs0) | set(settings_attrs1) if settings_attrs0.get(k_) != settings_attrs1.get(k_))
+            R.bad("inputs-unchanged", "C08:input-modified[settings-attributes,%s]" % cfg, {"op": [i, cfg], "changed": {k_: [settings_attrs0.get(k_), settings_attrs1.get(k_)] for k_ in ch_}})
+        else:
+            R.ok("inputs-unchanged")
         for k in inputs:
             R.count("input_snapshots_compared")
             if before[k] != after[k]:
